@@ -35,6 +35,7 @@ RULE = (
     "non-trivial; in the grid part distinct = fault points, in the random part distinct = distinct base cases."
 )
 RULE += " " + "Added after the seeding rounds: family 'clash' - a backup name equal to the input's or the output's name is refused with ValueError before the block runs and nothing changes (the clause is stated with C05; accepted, the save would overwrite the original with its own re-serialization)."
+RULE += " " + 'Round 7: unencodable family also with U+2028 / U+0085 (characters str.splitlines() treats as line breaks) and with a decomposed base + combining sequence whose composed form the code page has.'
 ASSUMPTIONS = [
     "faults are exceptions at call boundaries of the filesystem object handed to mutate (no power-loss / torn-write model)",
     "CPython codecs decide what the detected encoding is and what it can represent",
